@@ -655,24 +655,17 @@ Section Preserve.
     - exfalso. apply (find_none _ _ Ef x1) in Hin. rewrite Hpx1, Nat.eqb_refl in Hin. discriminate.
   Qed.
 
-  Theorem external_preserves_legal eng pr t tgt ev s0 s1 :
-    let d := find_domain m (t_src t) tgt in
-    Legal m (s_cfg s0) ->
-    exec_external eng pr m t tgt ev s0 = (s1, None) ->
-    tgt < size m -> is_history m tgt = false ->
-    In d (ancestors m tgt) ->                 (* the target lies strictly below the transition domain *)
-    In d (s_cfg s0) ->                        (* the domain is active *)
-    Legal m (s_cfg s1).
+  (* the configuration the effect formula describes is legal *)
+  Theorem formula_legal C d tgt :
+    Legal m C -> tgt < size m -> is_history m tgt = false -> In d (ancestors m tgt) -> In d C ->
+    Legal m (add_all (entered (S (size m)) m (path_to m tgt d)) (remove_all (rev (sort_by (lt_depth_id m) (exit_set m C d tgt))) C)).
   Proof.
-    intros d HL Hex Ht Hth Hd HdC.
-    pose proof (external_effect m eng pr t tgt ev s0 s1 Hex) as Heff. cbv zeta in Heff. fold d in Heff. rewrite Hth in Heff.
-    rewrite entered_nil in Heff. unfold add_all at 1 in Heff. cbn [fold_left] in Heff.
+    intros HL Ht Hth Hd HdC.
     assert (Hds : d < size m) by (apply (L_range m _ HL); exact HdC).
     destruct (path_chain tgt d Ht Hd) as [Hchain Hlast].
     destruct (path_to m tgt d) as [|x1 P'] eqn:EP; [inversion Hchain|].
     assert (Hx1 : x1 < size m /\ parent m x1 = Some d) by (inversion Hchain; subst; split; assumption).
     destruct Hx1 as [Hx1s Hpx1]. destruct (child_of_parent m Hwf x1 d Hx1s Hpx1) as [_ Hcx1].
-    set (C := s_cfg s0) in *.
     set (xs := rev (sort_by (lt_depth_id m) (exit_set m C d tgt))) in *.
     destruct (has_child_kind m Hwf d x1 Hds Hcx1) as [_ [Hkd|Hkd]].
     - (* compound domain: everything below it goes *)
@@ -692,7 +685,7 @@ Section Preserve.
           apply (exit_set_sub m C d tgt y) in Hin as [_ [Hyd Hne]]. apply mem_In in Hyd.
           destruct (below_some_child y d Hys Hyd Hne) as [b [Hb Hyb]].
           assert (removedb m Bs y = true) by (apply (removedb_spec m Bs y); exists b; now split). congruence. }
-      rewrite Heff, Hrm. apply (preserve_core d x1 P' Bs C tgt HL HdC Hchain Hlast Hth); [intros b Hb; exact Hb | exact Hcx1 | intros _ c Hc; exact Hc | intros Hk; congruence].
+      rewrite Hrm. apply (preserve_core d x1 P' Bs C tgt HL HdC Hchain Hlast Hth); [intros b Hb; exact Hb | exact Hcx1 | intros _ c Hc; exact Hc | intros Hk; congruence].
     - (* parallel domain: only the target's region goes *)
       set (Bs := [x1]).
       assert (Hbr : branch_of m d tgt = Some x1) by (apply (branch_is_path_head d tgt x1 P' Ht Hchain EP)).
@@ -710,11 +703,26 @@ Section Preserve.
           apply negb_true_iff, Nat.eqb_neq. intros ->. apply (child_not_above m Hwf d x1 Hds Hcx1 Hyb).
         - apply mem_false. intros Hin. apply Hxs in Hin as [_ [_ Hb]]. apply mem_In in Hb.
           assert (removedb m Bs y = true) by (apply (removedb_spec m Bs y); exists x1; split; [now left | exact Hb]). congruence. }
-      rewrite Heff, Hrm. apply (preserve_core d x1 P' Bs C tgt HL HdC Hchain Hlast Hth).
+      rewrite Hrm. apply (preserve_core d x1 P' Bs C tgt HL HdC Hchain Hlast Hth).
       + intros b Hb. destruct Hb as [<-|[]]. exact Hcx1.
       + now left.
       + intros Hk. congruence.
       + intros _. reflexivity.
+  Qed.
+
+  Theorem external_preserves_legal eng pr t tgt ev s0 s1 :
+    let d := find_domain m (t_src t) tgt in
+    Legal m (s_cfg s0) ->
+    exec_external eng pr m t tgt ev s0 = (s1, None) ->
+    tgt < size m -> is_history m tgt = false ->
+    In d (ancestors m tgt) ->                 (* the target lies strictly below the transition domain *)
+    In d (s_cfg s0) ->                        (* the domain is active *)
+    Legal m (s_cfg s1).
+  Proof.
+    intros d HL Hex Ht Hth Hd HdC.
+    pose proof (external_effect m eng pr t tgt ev s0 s1 Hex) as Heff. cbv zeta in Heff. fold d in Heff. rewrite Hth in Heff.
+    rewrite entered_nil in Heff. unfold add_all at 1 in Heff. cbn [fold_left] in Heff.
+    rewrite Heff. now apply formula_legal.
   Qed.
 End Preserve.
 
